@@ -46,6 +46,11 @@ func lispText(v V) string {
 		b.WriteByte('"')
 		return b.String()
 	case "sym":
+		for _, o := range oddSymPool {
+			if o == v.S {
+				return "'|" + v.S + "|"
+			}
+		}
 		return "'" + v.S
 	case "key":
 		return v.S
